@@ -151,6 +151,19 @@ def _estimate_tree_depth(expr: Expression) -> int:
     return depth
 
 
+def _param_value(param: Any) -> Any:
+    """Current value of a Parameter as seen by compiled closures.
+
+    A Python number is returned as a NumPy float64 so that arithmetic between
+    two scalar leaves follows IEEE semantics (inf / nan, later sanitised by the
+    derivative callables) instead of raising ZeroDivisionError.
+    """
+    value = param.value
+    if isinstance(value, (int, float)):
+        return np.float64(value)
+    return value
+
+
 def _build_evaluator(
     expr: Expression,
     var_indices: dict[str, int],
@@ -190,7 +203,7 @@ def _build_evaluator(
         # Parameters evaluate to their current value at call time
         # We capture the parameter object, not its value, for mutability
         param = expr
-        return lambda x, p=param: p.value
+        return lambda x, p=param: _param_value(p)
 
     elif isinstance(expr, Variable):
         idx = var_indices[expr.name]
@@ -389,7 +402,7 @@ def _build_evaluator_iterative(
 
         if isinstance(node, Parameter):
             param = node
-            result_stack.append(lambda x, p=param: p.value)
+            result_stack.append(lambda x, p=param: _param_value(p))
             continue
 
         if isinstance(node, Variable):
